@@ -272,7 +272,7 @@ def _inline_single_use_temps(tree):
 def normalise(tree: ast.AST, typed_locals: bool = False) -> ast.AST:
     if not typed_locals:  # in lowered .pyx modules the annotation is the C type of the local, which rules read
         tree = _DropLocalAnnotations().visit(tree)
-        tree = _inline_single_use_temps(tree)
+    tree = _inline_single_use_temps(tree)
     tree = Normaliser().visit(tree)
     ast.fix_missing_locations(tree)
     return tree
